@@ -1,6 +1,8 @@
-(** C15 - proofs about model/Fmt.v.  Integer / list parts are closed under the
-    global context; the binary64 parts use Flocq (Reals). *)
-From IndModel Require Import Base Fmt.
+(** C15 - proofs about model/Fmt.v: the integer / list parts (closed under the
+    global context).  The binary64 parts (Flocq, Reals) are in FmtF64Proofs.v.
+    The vocabulary of the statements ([group], [hd_idx], [dval] ...) is defined
+    in model/FmtSpec.v. *)
+From IndModel Require Import Base Fmt FmtSpec.
 From IndGen Require Import Constants.
 From Coq Require Import List NArith ZArith Bool Lia Arith String SpecFloat.
 Require Import ZifyBool ZifyNat ZifyN.
@@ -15,9 +17,6 @@ Arguments N.pow : simpl never.
 Open Scope N_scope.
 
 (* ================================================================== decimal numerals *)
-(** value of a digit string *)
-Definition dval (l : list N) : N := fold_left (fun a c => 10 * a + (c - CH_0)) l 0.
-Definition is_digit (c : N) : Prop := CH_0 <= c <= 57.
 
 Fixpoint digs (f : nat) (n : N) : list N :=
   match f with
@@ -145,13 +144,6 @@ Proof.
 Qed.
 
 (* ================================================================== the comma loop *)
-(** closed form of [group_loop]: after a character a comma is written iff the
-    number of characters still to come is a positive multiple of three *)
-Fixpoint group (cs : list N) : list N :=
-  match cs with
-  | [] => []
-  | c :: r => c :: (if (0 <? len r) && (len r mod 3 =? 0) then [CH_COMMA] else []) ++ group r
-  end.
 
 Lemma len_cons : forall c (r : list N), len (c :: r) = len r + 1.
 Proof. intros. unfold len. cbn [List.length]. lia. Qed.
@@ -166,7 +158,6 @@ Proof.
   replace (ln - idx - 1) with (len r) by lia. reflexivity.
 Qed.
 
-Definition strip_commas (s : list N) : list N := filter (fun c => negb (c =? CH_COMMA)) s.
 
 Lemma strip_group : forall cs, Forall (fun c => c <> CH_COMMA) cs -> strip_commas (group cs) = cs.
 Proof.
@@ -222,7 +213,6 @@ Lemma human_count_ok : forall n, human_count n = Ok (group (dec n)).
 Proof. intros n. unfold human_count. apply group_loop_ok. lia. Qed.
 
 (* ================================================================== FormattedDuration *)
-Definition two (x : N) : list N := [CH_0 + x / 10; CH_0 + x mod 10].
 
 Lemma pad2_dec : forall x, x < 100 -> pad0 2 (dec x) = two x.
 Proof.
@@ -261,17 +251,6 @@ Lemma dhms_unique : forall d h m s d' h' m' s',
 Proof. intros. lia. Qed.
 
 (* ================================================================== HumanDuration: unit selection *)
-(** seconds of the i-th unit of the UNITS table *)
-Definition unit_secs (i : nat) : N := match nth_error UNITS i with Some (u, _, _) => u | None => 0 end.
-Definition unit_ns (i : nat) : N := unit_secs i * NANOS_PER_SEC.
-
-(** the stated rule: unit i qualifies for d iff d >= 1.5 unit_i - unit_(i+1) / 2,
-    written without subtraction / division: 2 d + unit_(i+1) >= 3 unit_i (in ns) *)
-Definition qualifies (d : N) (i : nat) : bool := 3 * unit_ns i <=? 2 * d + unit_ns (S i).
-
-Definition hd_idx (d : N) : nat :=
-  if qualifies d 0 then 0%nat else if qualifies d 1 then 1%nat else if qualifies d 2 then 2%nat
-  else if qualifies d 3 then 3%nat else if qualifies d 4 then 4%nat else 5%nat.
 
 Lemma hd_step : forall d cur next,
   3 * (cur * NANOS_PER_SEC) <= 2 * DUR_MAX_NS ->
@@ -354,15 +333,6 @@ Proof.
 Qed.
 
 (* ================================================================== HumanDuration: shape of the output *)
-(** the count that is printed (binary64 computation of line 120, clamp of 121-123) *)
-Definition hd_raw_count (secs nanos unit : N) : N :=
-  f64_to_usize (fround (fdiv (as_secs_f64 secs nanos) (as_secs_f64 unit 0))).
-Definition hd_count (secs nanos : N) (i : nat) : N :=
-  let t := hd_raw_count secs nanos (unit_secs i) in
-  if (i <? 5)%nat then N.max t 2 else t.
-
-Definition unit_name (i : nat) : string := match nth_error UNITS i with Some (_, n, _) => n | None => ""%string end.
-Definition unit_alt (i : nat) : string := match nth_error UNITS i with Some (_, _, a) => a | None => ""%string end.
 
 Lemma human_duration_spec : forall secs nanos alternate,
   let i := hd_idx (dur_ns secs nanos) in
@@ -384,8 +354,6 @@ Proof.
 Qed.
 
 (* ================================================================== number_prefix loop *)
-Fixpoint div_iter (k : nat) (a kilo : f64) : f64 :=
-  match k with O => a | S k' => div_iter k' (fdiv a kilo) kilo end.
 
 (** exact description of the while loop: it performs [k] divisions where [k] is the first
     index (at most 8) at which the running amount is below [kilo] *)
@@ -412,13 +380,27 @@ Proof.
   - exists 0%nat. cbn [div_iter]. repeat split; try lia; [f_equal; lia|right; exact E1].
 Qed.
 
+Lemma number_prefix_le8 : forall a kilo, snd (number_prefix a kilo) <= 8.
+Proof.
+  intros a kilo. unfold number_prefix.
+  destruct (np_loop_spec 9 (if BinarySingleNaN.Bsign a then f64_neg a else a) kilo 0) as (k & E & L & _);
+    [lia|cbn; lia|].
+  rewrite E. cbn [snd]. exact L.
+Qed.
+
+(** [prefixes[prefix - 1]] (number_prefix lib.rs:310) is always inside the array of 8 *)
+Lemma bytes_fmt_ok : forall binary n, exists s, bytes_fmt binary n = Ok s.
+Proof.
+  intros binary n. unfold bytes_fmt.
+  pose proof (number_prefix_le8 (f64_of_N n) (f64_of_N (if binary then 1024 else 1000))) as L.
+  destruct (number_prefix (f64_of_N n) (f64_of_N (if binary then 1024 else 1000))) as [number prefix].
+  cbn [snd] in L.
+  destruct (prefix =? 0) eqn:E0; [eexists; reflexivity|].
+  assert (exists j, N.to_nat (prefix - 1) = j /\ (j < 8)%nat) as (j & -> & Hj) by (eexists; split; [reflexivity|lia]).
+  destruct binary; do 8 (destruct j as [|j]; [eexists; reflexivity|]); lia.
+Qed.
+
 (* ================================================================== fixed-precision digits *)
-(** the [p] last digits of [r], with leading zeros *)
-Fixpoint lastdigs (p : nat) (r : N) : list N :=
-  match p with
-  | O => []
-  | S p' => lastdigs p' (r / 10) ++ [CH_0 + r mod 10]
-  end.
 
 Lemma lastdigs_length : forall p r, List.length (lastdigs p r) = p.
 Proof. induction p as [|p IH]; intros r; [reflexivity|]. cbn [lastdigs]. rewrite app_length, IH. cbn. lia. Qed.
@@ -546,15 +528,6 @@ Proof.
 Qed.
 
 (* ================================================================== HumanFloatCount *)
-Definition hfc_frac (p q : N) : list N :=
-  let t := trim_end CH_0 (lastdigs (N.to_nat p) (q mod 10 ^ p)) in
-  if (List.length t =? 0)%nat then [] else CH_DOT :: t.
-
-(** sign, grouped integer digits of q / 10^p, trimmed fraction digits of q mod 10^p *)
-Definition hfc_out (p : N) (s : bool) (q : N) : list N :=
-  sign_str s ++ group (dec (q / 10 ^ p)) ++ hfc_frac p q.
-
-Definition prec_of (precision : option N) : N := match precision with Some p => p | None => 4 end.
 
 Lemma digit_not : forall c l, ~ is_digit c -> Forall is_digit l -> Forall (fun x => x <> c) l.
 Proof. intros c l Hc H. eapply Forall_impl; [|exact H]. intros a Ha E. subst a. contradiction. Qed.
@@ -700,7 +673,7 @@ Proof.
   - rewrite human_count_ok. eexists; reflexivity.
   - eexists; reflexivity.
   - destruct (human_duration_spec s n a) as [-> _]. eexists; reflexivity.
-  - eexists; reflexivity.
+  - apply bytes_fmt_ok.
   - unfold human_float_count.
     destruct (decode64_cases b) as [(s & ->)|[(s & ->)|[->|(s & m & e & ->)]]].
     + rewrite hfc_zero. eexists; reflexivity.
